@@ -186,6 +186,26 @@ func runC04(c *Ctx) {
 			{Name: "uncache only after commit of the root succeeded", Re: `^Database#0\.commit\(.*\) == nil$`},
 		})
 		c.AllDominatedBy("C04-R2", cc, `^Database\.commit$`, `^Database\.uncache$`, 1, "nodes are batched before being uncached")
+		// newly set contract code is handed to the trie database unconditionally (a "known already" shortcut would trust a
+		// cache that outlives garbage collection of the blob)
+		cmtFn := c.Fn("core/state:(*StateDB).Commit")
+		fcm := c.Facts(cmtFn)
+		var dirtyCode []*pstate
+		for _, b := range cmtFn.Blocks {
+			for _, ins := range b.Instrs {
+				if stI, ok := ins.(*ssa.Store); ok {
+					if fa, ok := stI.Addr.(*ssa.FieldAddr); ok && fieldName(fa) == "dirtyCode" {
+						dirtyCode = append(dirtyCode, fcm.At(stI)...)
+					}
+				}
+			}
+		}
+		c.mustStates("C04-R2", cmtFn, "clearing of dirtyCode", dirtyCode, []LitReq{
+			{Name: "StateDB.Commit inserts dirty contract code into the trie database before it clears the dirty flag", Re: `^called:StateDB#0\.db\.TrieDB\(\)\.Insert\(common\.BytesToHash\(.*\.CodeHash\(\)\), .*\.code\)$`},
+		})
+		if len(dirtyCode) == 0 {
+			c.Ob("C04-R2", "StateDB.Commit clears dirtyCode", c.FnPos(cmtFn), false, "")
+		}
 		// the account trie's leaves link their storage trie and their code blob, so that committing the state root
 		// writes them too: an unlinked blob stays in memory and is lost on restart
 		var leaf *ssa.Function
@@ -211,7 +231,7 @@ func runC04(c *Ctx) {
 			})
 		}
 	})
-	c.Min("C04-R2", 9)
+	c.Min("C04-R2", 10)
 
 	c.Rule("C04-R3", "no lock survives a failed write: every Lock/RLock in trie, core, core/state, aquadb is released on every non-panic exit", func() {
 		f, o := c.LockPairingRule("C04-R3", []string{"trie", "core", "core/state", "aquadb", "core/types", "core/bloombits"}, nil, nil)
